@@ -10,6 +10,9 @@ use crate::universe::*;
 
 /// Install a panic hook that prints nothing (panics are expected by the thousands).
 pub fn silence_panics() {
+    if std::env::var("VERIF_LOUD").is_ok() {
+        return;
+    }
     std::panic::set_hook(Box::new(|_| {}));
 }
 
@@ -26,6 +29,35 @@ pub fn payload_to_string(p: Box<dyn std::any::Any + Send>) -> String {
 /// Run `f`, returning its value or the panic message.
 pub fn catch<T>(f: impl FnOnce() -> T) -> Result<T, String> {
     catch_unwind(AssertUnwindSafe(f)).map_err(payload_to_string)
+}
+
+/// Owner of a mock whose drop never unwinds into the harness (the verdict of such a drop is not
+/// what is being observed). Clones must be declared after (= dropped before) their original.
+pub struct Quiet(Option<Unimock>);
+
+impl Quiet {
+    pub fn new(u: Unimock) -> Quiet {
+        Quiet(Some(u))
+    }
+    /// Take the mock out (to observe its teardown explicitly).
+    pub fn take(mut self) -> Unimock {
+        self.0.take().unwrap()
+    }
+}
+
+impl std::ops::Deref for Quiet {
+    type Target = Unimock;
+    fn deref(&self) -> &Unimock {
+        self.0.as_ref().unwrap()
+    }
+}
+
+impl Drop for Quiet {
+    fn drop(&mut self) {
+        if let Some(u) = self.0.take() {
+            let _ = catch(move || drop(u));
+        }
+    }
 }
 
 #[derive(Clone, Debug, PartialEq, Eq, PartialOrd, Ord, Hash)]
